@@ -4,11 +4,12 @@
 LEVEL = "other"
 TRUSTED = ['networkx condensation / topological order (A2)']
 ASSUMPTIONS = ['A4 (not proved): max-antichain = min-flow duality']
-EXPLANATION = ('No unbounded contract proof was completed for this property in this session (the DP-recurrence and cache-invariant proofs planned in DESIGN.md were not built). It is decided by the BOUNDED stand-in: reachability tables of stDAG/stDiGraph vs BFS under varied query orders with warm and cold caches, per-edge max reachable value, is_scc_edge, maximum edge antichain vs brute force over all antichains, bottleneck peeling of conserving flows (rc/p_C17.py).')
+EXPLANATION = ('Proved (PyVC, unbounded): the reverse-topological DP of stDAG.reachable_nodes_from establishes the fix-point equation R[u] = {u} + union of R[successors] for every node, and the table is memoised (a later query returns the same object). The other substrate queries have no unbounded proof. The property is decided by the BOUNDED stand-in: reachability tables of stDAG/stDiGraph vs BFS under varied query orders with warm and cold caches, per-edge max reachable value, is_scc_edge, maximum edge antichain vs brute force over all antichains, bottleneck peeling of conserving flows (rc/p_C17.py).')
 
 
 def units(tier):
-    return []
+    from contracts import c17
+    return c17.all_units()
 
 
 def bounded(tier, seed):
